@@ -7,6 +7,7 @@ import (
 	"slices"
 	"sync"
 	"sync/atomic"
+	"time"
 )
 
 // Scheduler is implemented by the simulator.
@@ -246,3 +247,39 @@ func Order[K cmp.Ordered](label string, keys []K) []K {
 	}
 	return keys
 }
+
+// Ticker is a drop-in replacement for time.Ticker whose channel is an
+// ordinary buffered channel, so that len(t.C) tells whether a tick is
+// pending (channels of time.Ticker always report length 0).
+type Ticker struct {
+	C    chan time.Time
+	stop chan struct{}
+	once sync.Once
+}
+
+// NewTicker is like time.NewTicker.
+func NewTicker(d time.Duration) *Ticker {
+	if d <= 0 {
+		panic("non-positive interval for NewTicker")
+	}
+	t := &Ticker{C: make(chan time.Time, 1), stop: make(chan struct{})}
+	go func() {
+		tk := time.NewTicker(d)
+		defer tk.Stop()
+		for {
+			select {
+			case now := <-tk.C:
+				select {
+				case t.C <- now:
+				default:
+				}
+			case <-t.stop:
+				return
+			}
+		}
+	}()
+	return t
+}
+
+// Stop turns off the ticker.
+func (t *Ticker) Stop() { t.once.Do(func() { close(t.stop) }) }
